@@ -15,7 +15,8 @@
     the pyproject.toml (tomlkit) and setup.py (libcst) writers altogether.
     Statements indexed by a table value take the value extracted from /repo (Generated/Tables.v): the positive
     branch is the law, the negative branch its refutation by a concrete witness.
-    Strings in the witnesses are lists of code points (generated from readable text by the authors). *)
+    Strings in the witnesses are lists of code points; the readable source of this file is
+    tools/templates/C14.v.in (expanded with tools/expand_strs.py). *)
 From CM Require Import Model.Manifest Spec.ManifestSpec Proofs.ManifestFacts Generated.Tables.
 From Coq Require Import Lia.
 
